@@ -415,7 +415,6 @@ func blackbox(c *vf.Ctx) {
 	// quick: one server pair, 150 queries; thorough: three pairs (fresh data, partition
 	// count drawn per pair), 1500 queries each
 	rounds := c.Pick(1, 3)
-	var pts []int
 	for round := 0; round < rounds; round++ {
 		r := c.Rand(uint64(7 + round))
 		w := genBlackbox(r, c.Pick(150, 1500))
@@ -427,7 +426,6 @@ func blackbox(c *vf.Ctx) {
 		for _, n := range w.Expect {
 			total += n
 		}
-		pts = append(pts, w.PtN)
 		c.Count("blackbox-points-written", int64(total))
 		c.Count("blackbox-server-pairs", 1)
 		c.Distinct("blackbox-ptnum-pernode", fmt.Sprintf("1-vs-%d", w.PtN))
